@@ -2023,6 +2023,31 @@ def c18(ctx):
         if live != 0 or bad != 0 or created != destroyed:
             ctx.S("idnkit: idn_resconf contexts created %d, destroyed %d, live %d, bad destroys %d after eav_free" % (created, destroyed, live, bad),
                   op="H " + sc, variant="be:idnkit", impl=ln)
+    # idnkit only: eav_setup for mode 6531 in which the creation of the resolver context FAILS (S only - the model's setup always succeeds).  A later
+    # successful eav_setup for an ASCII mode makes the object what a fresh object set up for that mode is, in every back end; nothing is created,
+    # nothing destroyed twice
+    probe = [hx(x) for x in ("user@\u043f\u043e\u0447\u0442\u0430.\u0440\u0444".encode(), b"user@xn--80a1acny.xn--p1ai", b"user@b.com", b"a..b@b.com", b"user@b_c.com", b'"a b"@b.com')]
+    es = ";".join("e" + a_ + ";m" for a_ in probe)
+    for be in bes:
+        withf, plain = [], []
+        for m in (822, 5321, 5322):
+            for t_ in (0, 1):
+                withf += ["i;t%d;r6531;y;s;r%d;s;%s;f" % (t_, m, es), "i;t%d;r6531;y;s;r6531;y;s;r%d;s;%s;r%d;s;%s;f" % (t_, m, es, m, es)]
+                plain += ["i;t%d;r%d;s;%s;f" % (t_, m, es), "i;t%d;r%d;s;%s;r%d;s;%s;f" % (t_, m, es, m, es)]
+        cw, _ = ctx.run("resolver-failure", be, ["H " + x for x in withf])
+        cp, _ = ctx.run("resolver-failure-ref", be, ["H " + x for x in plain])
+        ctx.evals += len(withf) * 2
+        for sw, a, b in zip(withf, cw, cp):
+            ctx.nontrivial.add(be + ":" + sw)
+            ea = [x for x in re.sub(r";R[-\d,]+$", "", a[2:]).split(";") if x[:1] in ("e", "m")]
+            eb = [x for x in re.sub(r";R[-\d,]+$", "", b[2:]).split(";") if x[:1] in ("e", "m")]
+            if ea != eb:
+                k = next((i for i, (x, y) in enumerate(zip(ea, eb)) if x != y), min(len(ea), len(eb)))
+                ctx.S("after an eav_setup for mode 6531 that failed (idnkit: the resolver context could not be created) and a later successful eav_setup for an ASCII mode, "
+                      "the object does not behave as a fresh object set up for that mode", op="H " + sw, variant=be, got=ea[k:k + 1], fresh=eb[k:k + 1])
+            mres = re.search(r";R(\d+),(\d+),(-?\d+),(\d+)$", a)
+            if mres and (int(mres.group(3)) != 0 or int(mres.group(4)) != 0 or mres.group(1) != mres.group(2)):
+                ctx.S("idnkit: idn_resconf contexts created %s, destroyed %s, live %s, bad destroys %s after a history with a failed context creation" % mres.groups(), op="H " + sw, variant=be, impl=a)
 RULES["C18"] = "distinct (back end, op) pairs; partial/idn2, partial/idn and partial/idnkit compiled against shim headers onto one converter; address corpus of C15/C16 in four modes and tld on/off, call histories (with injected IDN failures); idnkit create/destroy counters"
 VARIANTS_OF["C18"] = {"quick": ["be:idn2", "be:idn", "be:idnkit"], "thorough": ["be:idn2", "be:idn", "be:idnkit"]}
 TRUSTED_EXTRA["C18"] = ["shims/idna.h, shims/idn/api.h, shims/shim_impl.c: stand-ins for GNU libidn and idnkit (neither is installed), forwarding to libidn2"]
